@@ -61,9 +61,27 @@ class CArr(Model):
         st.heap['c'] = C1
 
 
+class SRowView(Model):
+    """self.s[row]: a view; indexing it is indexing s with the row prepended (writes go through)"""
+
+    def __init__(self, base, row):
+        self.base, self.row = base, row
+
+    def _idx(self, idx):
+        return (self.row,) + (idx if isinstance(idx, tuple) else (idx,))
+
+    def m_getitem(self, ex, st, idx, node):
+        return self.base.m_getitem(ex, st, self._idx(idx), node)
+
+    def m_setitem(self, ex, st, idx, val, node):
+        return self.base.m_setitem(ex, st, self._idx(idx), val, node)
+
+
 class SArr(Model):
     def m_getitem(self, ex, st, idx, node):
         g = ex.g
+        if _conc_int(idx) in (0, 1) and not isinstance(idx, tuple):
+            return SRowView(self, _conc_int(idx))
         if not (isinstance(idx, tuple) and len(idx) in (2, 3) and _conc_int(idx[0]) in (0, 1) and isinstance(idx[1], IntArr)):
             raise NotInSubset('index into s')
         row, arr, S = _conc_int(idx[0]), st.heap[idx[1].name], st.heap['s']
